@@ -109,6 +109,34 @@ thread_local! {
     static TICKS: Cell<u64> = Cell::new(0);
     static BUDGET: Cell<u64> = Cell::new(u64::MAX);
     static YIELDS: Cell<u32> = Cell::new(0);
+    static DEPTH: Cell<u32> = Cell::new(0);
+}
+
+/// Deepest nesting of guarded calls allowed before the call is abandoned with a `BudgetExceeded` panic
+/// (an unbounded recursion then unwinds instead of overflowing the stack, which aborts the process)
+pub const MAX_DEPTH: u32 = 3000;
+
+/// Held for the duration of one guarded (recursive) call
+pub struct DepthGuard;
+
+impl Drop for DepthGuard {
+    fn drop(&mut self) {
+        DEPTH.with(|d| d.set(d.get().saturating_sub(1)));
+    }
+}
+
+/// Enter a recursive call at `site`
+pub fn enter(site: &'static str) -> DepthGuard {
+    let depth = DEPTH.with(|d| {
+        d.set(d.get() + 1);
+        d.get()
+    });
+    if depth > MAX_DEPTH {
+        // the guards of the frames being unwound bring the counter back down
+        DEPTH.with(|d| d.set(d.get().saturating_sub(1)));
+        std::panic::panic_any(BudgetExceeded { site, ticks: depth as u64 });
+    }
+    DepthGuard
 }
 
 /// Start recording events on this thread (drops what was recorded before)
